@@ -84,6 +84,10 @@ class BeamSplitter(Component):
 
     def get_unitary(self, n_modes: int) -> np.ndarray:  # noqa: D102
         self.validate()
+        # validate() cannot range-check a Parameter when the component is
+        # created, so check the value it holds now
+        if not 0 <= self._reflectivity <= 1:
+            raise ValueError("Reflectivity must be in range [0,1].")
         theta = np.arccos(self._reflectivity**0.5)
         unitary = np.identity(n_modes, dtype=complex)
         if self.convention == "Rx":
